@@ -238,7 +238,10 @@ fn worker(engine: &mut dyn Engine, a: &[String]) -> i32 {
             stats.nontrivial.insert(r.digest);
             if want {
                 if let Some(d) = &r.desc {
-                    stats.samples.push(d.clone());
+                    // keep the evidence file small: only compact descriptions serve as samples
+                    if d.to_string().len() <= 2500 {
+                        stats.samples.push(d.clone());
+                    }
                 }
             }
         }
@@ -715,7 +718,11 @@ pub fn check(engine: &mut dyn Engine, prop: &str, tier: &str) -> i32 {
     let evdir = root().join("evidence");
     let _ = std::fs::create_dir_all(&evdir);
     let evpath = evdir.join(format!("{}.json", prop));
-    if let Err(e) = std::fs::write(&evpath, serde_json::to_string_pretty(&ev).unwrap()) {
+    // write-then-rename so that a reader never sees a partial file
+    let tmp_path = evdir.join(format!(".{}.json.tmp", prop));
+    let wrote = std::fs::write(&tmp_path, serde_json::to_string_pretty(&ev).unwrap())
+        .and_then(|_| std::fs::rename(&tmp_path, &evpath));
+    if let Err(e) = wrote {
         harness_errors.push(format!("cannot write evidence: {}", e));
     }
     for l in &lines {
